@@ -908,6 +908,11 @@ func runC13(c *Ctx) error {
 		x.historyCase(c.rng.Fork())
 	}
 	x.fixedHistory()
+	for i := 0; i < c.N(400, 6000); i++ {
+		x.i = 5*n + i
+		x.mixedCase(c.rng.Fork())
+	}
+	x.mixedEndToEnd()
 	x.valueVsText()
 	x.endToEnd(c.rng.Fork())
 	x.stringResults(c.rng.Fork())
